@@ -136,6 +136,8 @@ structure Obs where
   tryLen : Nat
   iterLen : Nat
   refLen : Nat
+  /-- vm.curAsyncRunner != nil at the probe -/
+  ca : Bool := false
 deriving DecidableEq, Repr
 
 inductive FaultKind | throw_ | intr
@@ -165,6 +167,9 @@ structure Vm where
   probeCount : Nat
   faultAt : Option (Nat × FaultKind)
   trace : List Obs
+  /-- vm.curAsyncRunner != nil: set by asyncRunner.onFulfilled / onRejected for the time the continuation runs and reset
+  by their deferred function on every exit (normal, rejected, uncatchable); vm.captureStack reads it -/
+  curAsync : Bool := false
 deriving Repr, Inhabited
 
 /-- local exits: `break` out of the nearest for-of, `return` out of the nearest function — they run the
@@ -315,7 +320,7 @@ def FrameKind.post (k : FrameKind) (s : Vm) : Vm :=
 
 def observe (id : Nat) (s : Vm) : Vm :=
   { s with probeCount := s.probeCount + 1,
-           trace := s.trace ++ [⟨id, s.callStack.length, s.tryStack.length, s.iterStack.length, s.refStack.length⟩] }
+           trace := s.trace ++ [⟨id, s.callStack.length, s.tryStack.length, s.iterStack.length, s.refStack.length, s.curAsync⟩] }
 
 /-- `P(id)`: a native call (pushCtx may overflow); at the faultAt-th invocation the probe injects a
 fault: a Go panic with a Value (no popCtx happens) or Interrupt() (the native returns, the run loop
@@ -764,6 +769,11 @@ def asyncResume (runF : RunF) (id : Nat) (s : Vm) : Res :=
          | .thrown => (.normal, setGen (popCtx u.2) id (genDone g))      -- promiseCap.reject
          | _ => u)
 
+/-- asyncRunner.onFulfilled around the continuation: `vm.curAsyncRunner = ar; defer func() { vm.curAsyncRunner = nil }()` -/
+def asyncResumeCA (runF : RunF) (id : Nat) (s : Vm) : Res :=
+  let r := asyncResume runF id { s with curAsync := true }
+  (r.1, { r.2 with curAsync := false })
+
 /-! ### one layer of the interpreter -/
 
 def seqRes (runF : RunF) (a b : Beh) (s : Vm) : Res :=
@@ -854,7 +864,7 @@ def step (lf : Nat) (runF : RunF) : Beh → Vm → Res
   | .genThrow slot, s => genResume runF slot (some .throw_) true s
   | .genReturn slot, s => genResume runF slot (some .return_) false s
   | .asyncNew n f body, s => asyncNew runF n f body s
-  | .asyncResume id, s => asyncResume runF id s
+  | .asyncResume id, s => asyncResumeCA runF id s
 
 def run : Nat → RunF
   | 0 => fun _ s => (.fatal, s)
